@@ -362,7 +362,7 @@ func runC05(c *fw.Ctx) {
 	}
 	// sampled shapes
 	r := c.Rand(uint64(500 + c.Shard))
-	nShapes := c.Pick(1600, 40000) / c.NShards
+	nShapes := c.Pick(1600, 20000) / c.NShards
 	perShape := c.Pick(40, 100)
 	keyPool := []string{"k1", "k2", "k3", "k4", "k5", "e1", "e2"}
 	for s := 0; s < nShapes; s++ {
